@@ -154,8 +154,7 @@ func propC05(a *Analysis, r *Registry) {
 	sibling("DeltaDist", "pdfEach", "PDF", map[string]func(env *SpecEnv) []Assumption{"all": nil})
 	sibling("DeltaDist", "cdfEach", "CDF", map[string]func(env *SpecEnv) []Assumption{"all": nil})
 	// Student-t (the same formula obligations as under C04: this property quantifies over TDist as well)
-	b.Formula(rB, "stats.(TDist).CDF", "stats.(TDist).CDF", []string{"t", "x"}, nil, 0,
-		"ite(x==0, 0.5, ite(0<x, 1-0.5*mathx.BetaInc(t.V/(t.V+x*x), t.V/2, 0.5), ite(x<0, 1-t.CDF(-x), nan())))", nil)
+	b.TDistCDF(rB)
 	b.Formula(rB, "stats.(TDist).PDF", "stats.(TDist).PDF", []string{"t", "x"}, nil, 0,
 		"exp(lgamma((t.V+1)/2)-lgamma(t.V/2))/sqrt(t.V*3.141592653589793)*pow(1+x*x/t.V, -(t.V+1)/2)", nil)
 	// DeltaDist
